@@ -550,6 +550,10 @@ func (n *networkService) gcPods(ctx context.Context) error {
 
 	uidInLocal := sets.New[string]()
 	for _, podRes := range podResources {
+		if podRes.PodInfo == nil {
+			// a record without pod info can not be matched to a pod
+			continue
+		}
 		if podRes.PodInfo != nil {
 			if podRes.PodInfo.PodUID != "" {
 				uidInLocal.Insert(podRes.PodInfo.PodUID)
